@@ -353,12 +353,16 @@ class Body:
 
     def _trace_place(self, p, depth, seen):
         e = self._trace_local(p["local"], depth + 1, seen)
-        for pr in p["proj"]:
+        return self._project(e, p["proj"], None, None, depth, seen)
+
+    def _project(self, e, proj, env=None, walker=None, depth=0, seen=frozenset()):
+        """Apply place projections to an expression (env/walker: path-local values, see rules/pathsum.py)."""
+        for pr in proj:
             k = pr["k"]
             if k == "Deref":
                 e = e[1] if e[0] == "ref" else ("deref", e)
             elif k == "Field":
-                if e[0] == "agg" and pr["i"] < len(e[2]) and e[1].get("agg") in ("Tuple", "Adt", "Closure"):
+                if e[0] == "agg" and pr["i"] < len(e[2]) and e[1].get("agg") in ("Tuple", "Adt", "Closure", "fields"):
                     e = e[2][pr["i"]]
                 elif e[0] == "phi" and e[2] and all(a[0] == "agg" and pr["i"] < len(a[2]) and a[1].get("agg") in ("Tuple", "Adt") for a in e[2]):
                     # every definition is a constructor: the field is one of the corresponding operands
@@ -369,7 +373,11 @@ class Body:
             elif k == "Downcast":
                 e = _project_variant(e, pr["variant"])
             elif k == "Index":
-                e = ("index", e, self._trace_local(pr["local"], depth + 1, seen))
+                if env is not None and pr["local"] in env:
+                    ie = env[pr["local"]]
+                else:
+                    ie = self._trace_local(pr["local"], depth + 1, seen)
+                e = ("index", e, ie)
             elif k == "ConstantIndex":
                 e = ("cindex", e, pr["offset"], pr["from_end"])
             else:
